@@ -91,6 +91,13 @@ def step (w : World) (ws : List String) : Option (World × String) :=
   | ["msg", m, h] => match Fr.parse? h with
     | some h => some ({ w with msgs := (w.msgs.filter (·.1 != m)) ++ [(m, h)] }, "ok")
     | none => bad w
+  | ["msgb", m, hx, h] =>
+    -- a message given by its bytes (hex, any length); the bytes themselves do not matter to the model: distinct byte
+    -- strings are distinct messages with unrelated message points
+    let okHex := hx == "-" || (hx.length % 2 == 0 && hx.toList.all (fun c => (ZChain.DKG.hexDigit? c).isSome))
+    match Fr.parse? h with
+    | some h => if okHex then some ({ w with msgs := (w.msgs.filter (·.1 != m)) ++ [(m, h)] }, "ok") else bad w
+    | none => bad w
   | ["rawmsg", m, h] => match Fr.parse? h with
     | some h => if (msg? w m).isSome then some (w, "ok") else some ({ w with msgs := w.msgs ++ [(m, h)] }, "ok")
     | none => bad w
